@@ -43,7 +43,7 @@ func transformCSS(src string, minifySyntax, minifyWS bool, supported map[string]
 
 func runC12(seed uint64, n int, tier string, outDir string) []*Stats {
 	r := NewRng(seed)
-	cf := NewCoqFile("From V Require Import Common.Base C12.Text C12.Hex C12.ColorSpec gen.ColorTablesGen C12.Cascade C12.NumberCss C12.Mangle C12.ImportOrder C12.BoxTracker C12.RadiusTracker C12.Nesting C12.Harness.")
+	cf := NewCoqFile("From V Require Import Common.Base C12.Text C12.Hex C12.ColorSpec gen.ColorTablesGen C12.Cascade C12.NumberCss C12.Mangle C12.ImportOrder C12.BoxTracker C12.RadiusTracker C12.Nesting C12.HslSpec C12.Harness.")
 	st := NewStats("c12", seed)
 
 	glueCorpus(r, st)
@@ -51,6 +51,7 @@ func runC12(seed uint64, n int, tier string, outDir string) []*Stats {
 	numberCases(r, n, cf, st)
 	redundantCases(r, n, cf, st)
 	pctRefCases(r, cf, st)
+	hslRgbCases(r, n, cf, st)
 	boxModelCases(r, n+n/2, cf, st)
 	radiusModelCases(r, n, cf, st)
 	// the nesting families are evaluated by vm_compute over whole selector trees / element sets: bounded volume
